@@ -427,9 +427,9 @@ func runFlt(f []string) core.Outcome {
 		return core.Outcome{Impl: "err:provision", Tags: []string{"flt:provision-error"}}
 	}
 	defer cancel()
-	if want := buildTables(fs, v); want != f[5] {
-		return core.Outcome{Impl: "table-mismatch", Tags: []string{"table-mismatch"}}
-	}
+	// a line whose oracle tables are not what the standard library answers today is reported as such,
+	// but the filter is still run and judged by the oracle (so that failing inputs can be shrunk)
+	tablesOK := buildTables(fs, v) == f[5]
 	orig, _ := mkField(key, v)
 	out := filter.Filter(in)
 
@@ -452,6 +452,10 @@ func runFlt(f []string) core.Outcome {
 		impl = "ok " + core.Hex(out.Key) + " other-changed"
 	}
 	o := core.Outcome{Impl: impl, Tags: []string{"op:flt", "flt:" + fs.kind + "/" + v.kind}}
+	if !tablesOK {
+		o.Impl = "table-mismatch"
+		o.Tags = append(o.Tags, "table-mismatch")
+	}
 	emitted := ""
 	if out.Type != zapcore.SkipType {
 		emitted = encodeJSON(out)
